@@ -2,6 +2,7 @@
    Property theorems only; each is closed by [exact] and followed by Print Assumptions. *)
 From Coq Require Import List NArith Arith Bool Relations.
 From PV Require Import Typegraph.Reach Typegraph.ReachProofs Typegraph.Prune Typegraph.PruneProofs.
+From PV Require Import Typegraph.Entry Typegraph.EntryProofs.
 Import ListNotations.
 
 (* For every well-formed insertion history h (any length, any number of 64-bit buckets, self edges,
@@ -150,4 +151,43 @@ Proof. vm_compute. split; reflexivity. Qed.
 Example single_prune :
   prune (py_run 0 h_single) 0 (Some 129) = Some [0] /\ prune (py_run 0 h_single) 0 (Some 63) = Some [] /\
   prune_general (py_run 0 h_single) 0 129 = Some [0].
+Proof. vm_compute. repeat split; reflexivity. Qed.
+
+(* ======================= Program state outside the graph: the entrypoint attribute =======================
+   Extended histories (Entry.pyop_e) interleave the calls above with `program.entrypoint = node | None`
+   (cfg.cc ProgramSetAttro -> Program::set_entrypoint).  The attribute is part of the program's state but
+   Program::is_reachable reads only the bit matrix, so: *)
+
+(* (e1) the graph-level state after an extended history is the state after its graph-building calls alone *)
+Theorem pe_run_core : forall (d : nat) (h : list pyop_e), pe_core (pe_run d h) = py_run d (core_ops h).
+Proof. exact pe_run_core_lemma. Qed.
+Print Assumptions pe_run_core.
+
+(* (e2) is_reachable equals graph reachability over the inserted edges whatever was written to the attribute *)
+Theorem pe_reach_correct : forall (d : nat) (h : list pyop_e) (a b : nat),
+  pe_wf d h = true ->
+  a < nodes (ps_prog (pe_core (pe_run d h))) -> b < nodes (ps_prog (pe_core (pe_run d h))) ->
+  (pe_is_reachable (pe_run d h) a b = true <->
+   clos_refl_trans nat (fun x y => In (x, y) (py_edges (core_ops h))) a b).
+Proof. exact pe_reach_correct_lemma. Qed.
+Print Assumptions pe_reach_correct.
+
+(* (e3) histories that differ only in entrypoint writes answer every reachability query identically *)
+Theorem entrypoint_irrelevant : forall (d : nat) (h1 h2 : list pyop_e) (a b : nat),
+  core_ops h1 = core_ops h2 -> (pe_is_reachable (pe_run d h1) a b) = (pe_is_reachable (pe_run d h2) a b).
+Proof. exact entrypoint_irrelevant_lemma. Qed.
+Print Assumptions entrypoint_irrelevant.
+
+(* (e4) reading the attribute back gives the last value written (None before any write) *)
+Theorem entrypoint_last_write : forall (d : nat) (h : list pyop_e), pe_entry (pe_run d h) = last_entry None h.
+Proof. exact pe_entry_last_write_lemma. Qed.
+Print Assumptions entrypoint_last_write.
+
+(* Non-vacuity: a 3-cycle through the entrypoint; the node is reachable from the others although it is the entrypoint. *)
+Definition entry_cycle : list pyop_e :=
+  [ECore PNewCFGNode; ESetEntry (Some 0); ECore (PConnectNew 0); ECore (PConnectNew 1); ECore (PConnectTo 2 0);
+   ESetEntry None; ESetEntry (Some 0)].
+Example entry_cycle_ok :
+  pe_wf 0 entry_cycle = true /\ pe_entry (pe_run 0 entry_cycle) = Some 0 /\
+  pe_is_reachable (pe_run 0 entry_cycle) 2 0 = true /\ pe_is_reachable (pe_run 0 entry_cycle) 1 0 = true.
 Proof. vm_compute. repeat split; reflexivity. Qed.
